@@ -102,6 +102,12 @@ func c17Static() (finds []Finding, n int) {
 		for i := 0; i < t.NumField(); i++ {
 			f := t.Field(i)
 			tag := f.Tag.Get("avp")
+			if tag == "" && f.IsExported() {
+				// go-diameter's marshaller carries tagged fields only (it neither flattens embedded structs nor guesses names):
+				// an untagged member of a message structure never reaches the peer
+				n++
+				finds = append(finds, Finding{"field-without-avp-tag", fmt.Sprintf("%s.%s (%s) has no avp tag: whatever is stored in it is not sent and not received", name, f.Name, f.Type)})
+			}
 			if tag == "" || tag == "-" {
 				continue
 			}
@@ -198,6 +204,10 @@ func buildDiam(c *Chooser, t reflect.Type, path string, depth int) reflect.Value
 	for i := 0; i < t.NumField(); i++ {
 		f := t.Field(i)
 		if f.Tag.Get("avp") == "" {
+			// untagged members are filled as well, so that the round trip shows that they are not carried
+			if f.IsExported() && f.Type.Kind() == reflect.Struct && depth <= 4 {
+				v.Field(i).Set(buildDiam(c, f.Type, path+"."+f.Name, depth+1))
+			}
 			continue
 		}
 		p := path + "." + f.Name
